@@ -243,7 +243,35 @@ def r3(db, rep):
                 okk = True
             if not okk:
                 bad_use.append(facts.expr_str(p) if p else "?")
-        if globs:
+        # a raw copy out of the address reads exactly the address: its length is the address's own size, never a constant
+        # chosen for the destination (`memcpy(&u64, addr.begin(), sizeof(u64))` drags in the bytes BEHIND a 6-byte address:
+        # equal addresses then hash differently depending on their neighbours in memory)
+        over = None
+        for c in facts.fn_nodes(f):
+            if c["k"] == "CallExpr" and c.get("cname") in ("memcpy", "memmove", "copy_n") and len(c["c"]) >= 4:
+                src, ln = (c["c"][2], c["c"][3]) if c["cname"] != "copy_n" else (c["c"][1], c["c"][2])
+                if not any(x["k"] == "DeclRefExpr" and x.get("var") == pvar for x in facts.walk(src)):
+                    continue
+                k_ = facts.cval(ln)
+                pt = facts.tyi(f, f["params"][0].get("t")) or {}
+                while pt.get("k") == "ref" and pt.get("to"):
+                    pt = pt["to"] if isinstance(pt["to"], dict) else (facts.tyi(f, pt["to"]) or {})
+                asz = None
+                r_ = db.records.get(pt.get("name") or "")
+                if r_:
+                    for st_ in r_.get("statics", []):
+                        if st_["name"] == "address_size" and "v" in st_:
+                            asz = int(st_["v"])
+                mentions_size = any((x["k"] == "DeclRefExpr" and x.get("name") in ("n", "address_size")) or
+                                    (x["k"] == "CXXMemberCallExpr" and x.get("cname") == "size") for x in facts.walk(ln))
+                if k_ is not None and not mentions_size and (asz is None or k_ > asz):
+                    over = (c, k_, asz)
+        if over:
+            rep.violation("R3-hash", key, facts.loc(f, over[0]),
+                          "the hash copies a fixed %d bytes out of the address (%s): for a shorter address the bytes stored behind it are hashed "
+                          "too, so two equal addresses can hash differently (and the read leaves the object)" %
+                          (over[1], "address size %d" % over[2] if over[2] is not None else "whose size is the template parameter"))
+        elif globs:
             rep.violation("R3-hash", key, facts.loc(f), "hash reads mutable global state `%s`" % globs[0].get("name"))
         elif bad_use or not uses:
             rep.violation("R3-hash", key, facts.loc(f), "hash is not a function of the address bytes only (%s)" % (bad_use[:2] or "address never read"))
